@@ -26,6 +26,10 @@ def variables(node):
     return [n.name for n in walk(node) if n.ast_type == ASTType.Variable]
 
 
+def _preds_of(node):
+    return {(sym.name, len(sym.arguments)) for _, sym in astspec.sym_atoms(node) if sym.ast_type == ASTType.Function}
+
+
 def body_of(stm):
     return list(stm.body) if stm.ast_type in (ASTType.Rule, ASTType.Minimize) else []
 
@@ -290,6 +294,70 @@ def falsified(text, flags, rec=None):
                             and set(variables(l)) <= set(trio)))
                     if len({uses(v) for v in trio}) > 1:
                         keys.add("Hyp_sym_clique_uniform")
+        # D40: two variables compared with each other (!=, <, >, not =) that symmetry may exchange are not used alike by the
+        # symbolic literals of the body: one of them also sits at another position of the copies, or in a literal of
+        # another group (positions as a multiset of (predicate, arity, sign, argument position))
+        if "symmetry" in on and hasattr(stm, "body"):
+            def _uses(v, lits_):
+                out = []
+                for l in lits_:
+                    if l.ast_type == ASTType.Literal and l.atom.ast_type == ASTType.SymbolicAtom and \
+                            l.atom.symbol.ast_type == ASTType.Function:
+                        for k_, a_ in enumerate(l.atom.symbol.arguments):
+                            for _ in range(variables(a_).count(v)):
+                                out.append((l.atom.symbol.name, len(l.atom.symbol.arguments), int(l.sign), k_))
+                return sorted(out)
+            scopes = [list(stm.body)]
+            for a in baggs:
+                for e in a.elements:
+                    scopes.append(list(e.condition) + list(stm.body))
+            for sc in scopes:
+                for l in sc:
+                    if l.ast_type == ASTType.Literal and l.atom.ast_type == ASTType.Comparison and len(l.atom.guards) == 1 \
+                            and l.atom.term.ast_type == ASTType.Variable and l.atom.guards[0].term.ast_type == ASTType.Variable:
+                        a_, b_ = l.atom.term.name, l.atom.guards[0].term.name
+                        ua, ub = _uses(a_, sc), _uses(b_, sc)
+                        if a_ != b_ and ua and ub and ua != ub and {x[:3] for x in ua} & {x[:3] for x in ub}:
+                            keys.add("Hyp_sym_pair_uniform")
+        # D41: inline into an aggregate with sibling elements, or of several objectives: the `unique` padding of the new
+        # tuples is computed from the wrong length, unfolded tuples can collide with a sibling / with each other
+        if "inline" in on:
+            helper_preds = set()
+            for s2 in rules:
+                if s2.ast_type == ASTType.Rule and s2.head.ast_type == ASTType.Literal and \
+                        s2.head.atom.ast_type == ASTType.SymbolicAtom and s2.head.atom.symbol.ast_type == ASTType.Function and \
+                        any(l.ast_type == ASTType.Literal and l.atom.ast_type == ASTType.BodyAggregate for l in s2.body):
+                    helper_preds.add((s2.head.atom.symbol.name, len(s2.head.atom.symbol.arguments)))
+            for a in baggs:
+                if len(a.elements) >= 2 and any(q in helper_preds for e in a.elements for c_ in e.condition
+                                                for q in _preds_of(c_)):
+                    keys.add("Hyp_inline_padding")
+            mins = [s2 for s2 in rules if s2.ast_type == ASTType.Minimize]
+            if stm.ast_type == ASTType.Minimize and len(mins) >= 2 and len({len(m.terms) for m in mins}) >= 2 and \
+                    sum(1 for m in mins if any(l.ast_type == ASTType.Literal and l.atom.ast_type == ASTType.BodyAggregate
+                                               for l in m.body) or any(q in helper_preds for l in m.body for q in _preds_of(l))) >= 2:
+                keys.add("Hyp_inline_padding")
+        # D42: duplication factors out a conditional literal / an aggregate whose condition uses a variable that is global
+        # only through a literal that stays behind (the expected output of a stored test pins the shape)
+        if "duplication" in on and hasattr(stm, "body"):
+            for l in stm.body:
+                scoped = l.ast_type == ASTType.ConditionalLiteral or (
+                    l.ast_type == ASTType.Literal and l.atom.ast_type in (ASTType.BodyAggregate, ASTType.Aggregate))
+                if scoped:
+                    others = set()
+                    for l2 in stm.body:
+                        if l2 is not l:
+                            others |= set(variables(l2))
+                    if stm.ast_type == ASTType.Rule:
+                        others |= set(variables(stm.head))
+                    if (set(variables(l)) - {"_"}) & others:
+                        keys.add("Hyp_dup_scoped_globals")
+        # D43: a #const name in an objective's tuple: `n` and its value are different terms for `potentially_unifying`
+        if stm.ast_type == ASTType.Minimize:
+            consts = {d.name for d in prg if d.ast_type == ASTType.Definition}
+            tuple_text = " ".join(str(t) for t in [stm.weight, stm.priority, *stm.terms])
+            if any(re.search(rf"(?<![A-Za-z0-9_]){re.escape(c)}(?![A-Za-z0-9_(])", tuple_text) for c in consts):
+                keys.add("Hyp_no_const_in_tuple")
         # C05a: boolean constants as elements of an old-style aggregate
         for n in walk(stm):
             if n.ast_type == ASTType.Aggregate and stm.ast_type in (ASTType.Rule, ASTType.Minimize) and \
